@@ -3,7 +3,7 @@
 runs all checks on it and prints every VIOLATED/UNDECIDED line (each is a false alarm to be corrected in the machinery)."""
 import sys,os,subprocess,glob,shutil,json
 d=sys.argv[1]
-scratch='/tmp/tn-scratch'; repo=scratch+'/repo'; vdir=scratch+'/verif'
+scratch='/tmp/tn-scratch-%d'%os.getpid(); repo=scratch+'/repo'; vdir=scratch+'/verif'
 os.makedirs(vdir+'/evidence',exist_ok=True)
 shutil.copy('/verif/known_findings.json',vdir)
 res={}
